@@ -65,6 +65,8 @@ def regenerate(ctx: Ctx) -> None:
     ctx.gen_status.update(bh_tr.regenerate())
     ctx.gen_status.update(bonds_tr.regenerate())
     ctx.stats.notes["observation"] = OBSERVATION
+    from translate import transcripts as _tr
+    ctx.gen_status.update(_tr.constructor_wiring(['BasinHopping']))
 
 
 # ----------------------------------------------------------------------------- metropolis grid
